@@ -70,9 +70,12 @@ def byte_mutants(data, rng, k):
         i = rng.randrange(len(b) + 1)
         if kind == "unterminated":
             # an opener at i whose closer never comes (long tail up to the end of input)
-            op = rng.choice([b'"', b"/*", b"text:\n"])
+            op = rng.choice([b'"', b'"', b"/*", b"text:\n"])
             tail = bytes(b[i:])
-            if op == b'"':
+            if op == b'"' and rng.random() < 0.5:
+                # escapes everywhere: every second octet of the tail is a backslash, and no closing quote
+                tail = b"\\" * 40 + tail.replace(b'"', b"'").replace(b"\\", b"/") + b"\\" * 41 + b"x"
+            elif op == b'"':
                 tail = tail.replace(b'"', b"'").replace(b"\\", b"/")
             elif op == b"/*":
                 tail = tail.replace(b"*/", b"* /")
@@ -135,12 +138,15 @@ def driver(prop, tier, seed, devs):
     recs, cnt, st = ptrace.judge_scripts(scripts, devs, roundtrip=(prop == "C04"))
     if st["error"]:
         out["machinery"].append("SieveTrace on suite scripts: %s" % st["error"])
-    # pins as axioms: only when the suite itself passed (the code agrees with the pin)
+    # pins as axioms: the verdict the suite itself observed (and asserts) must be the reference's, or dontcare,
+    # or explained by an open deviation -- otherwise the specification is wrong
     if d["rc"] == 0:
-        for r in recs:
-            if "C01" in r["failed"] and not (r["expl"] and all(x in devs for x in r["expl"])):
-                out["machinery"].append("pinned verdict contradicts the reference (specification bug?): %r %s"
-                                        % (r["text"][:80], r["failed"]["C01"]))
+        for data, pin, ref in zip(scripts, pins, st.get("refs", [])):
+            if ref is None or ref["irr"] or ref["note"] or pin not in (True, False):
+                continue
+            if (ref["v"] == "acc") != pin and not ref["devpaths"]:
+                out["machinery"].append("pinned verdict %s contradicts the reference %s(%s) (specification bug?): %r"
+                                        % (pin, ref["v"], ref["why"], data[:80]))
     k, v = classify(recs, prop, devs, "suite")
     merge(out, k, v)
     out["states"] += st["distinct"]
@@ -194,6 +200,32 @@ def driver(prop, tier, seed, devs):
         out["machinery"].append("SieveTrace returned no verdict for %d traces" % cnt["missing"])
     k, v = classify(recs, prop, devs, "generated")
     merge(out, k, v)
+    if prop == "C02":
+        # parse_file: the same totality on files (and the same outcome as parse() on the bytes)
+        import tempfile
+        from . import sieve_impl as I
+        pf = I.new_parser()
+        pp = I.new_parser()
+        nfile = 0
+        with tempfile.TemporaryDirectory(dir=os.path.join(VERIF, "build")) as td:
+            for j, data in enumerate(batch[:: max(1, len(batch) // (150 if tier == "quick" else 3000))]):
+                path = os.path.join(td, "s%d.sieve" % j)
+                with open(path, "wb") as fp:
+                    fp.write(data)
+                o1 = I.run_parse(pp, data)
+                try:
+                    r = pf.parse_file(path)
+                    o2 = ("ret", r, pf.error if r is False else None)
+                except BaseException as e:  # noqa
+                    o2 = ("raise", type(e).__name__, str(e)[:60])
+                nfile += 1
+                want = ("ret", o1["verdict"], o1["error"] if o1["verdict"] is False else None) if o1["cls"] == "ret" else None
+                if o2[0] != "ret" or (want is not None and o2 != want):
+                    out["viols"].append(("parse_file", {"text": data.decode("utf-8", "replace"), "expl": None, "ref": [],
+                                                        "failed": {"C02": "parse_file gave %r, parse() on the same bytes %r" % (o2, want)},
+                                                        "obs": {}}))
+        out["parses"] += nfile
+        out["coverage"]["parse_file_cases"] = nfile
     if prop == "C04":
         # the serialised outputs themselves are scripts: TLC (not the code) decides that they are valid and
         # that the code reads them as the reference does
